@@ -1046,12 +1046,12 @@ class Unit:
             mfp = re.search(r"<\s*(\w+)\s*:\s*(?:num_traits::)?Float\s*>", text_of(toks[:find_fn_parts(toks)["params_open"]]))
             self.r16_fp = mfp.group(1) if mfp else None
         toks = self.r16_inline_helpers(toks, rel, it, None if free else cands_impl(self, spec), spec["name"])
+        toks = self.r6b_local_consts(toks, rel)
         if self.mode == "ideal":
             if free:
                 toks, fp = self.mono_header(toks)
             toks, iter_params = self.drop_iter_generics(toks)
             toks = drop_mono_predicates(toks, fp)
-            toks = self.r6b_local_consts(toks, rel)
             rw = Rewriter(float_param=fp, iter_params=iter_params, consts=getattr(self, "consts", ()))
             toks = rw.run(toks)
             self.bump_rules(rw.counts)
@@ -1228,6 +1228,10 @@ class Unit:
                             p3 -= 1
                         if toks[p2].text == "self" and toks[p3].text not in (".",):
                             form, start = "method", p2
+                        elif toks[p2].kind == L.IDENT and toks[p3].text not in (".", "::") and re.fullmatch(r"[a-z_][a-z0-9_]*", toks[p2].text):
+                            # a method of the same impl called on another variable of the same type: `other.h(..)`; the body is
+                            # inlined with `self` standing for that variable
+                            form, start = "method:" + toks[p2].text, p2
                         else:
                             i += 1
                             continue
@@ -1235,7 +1239,7 @@ class Unit:
                         p2 = p1 - 1
                         while p2 >= 0 and L.is_trivia(toks[p2]):
                             p2 -= 1
-                        if toks[p2].text == "Self":
+                        if toks[p2].text == "Self" or (toks[p2].kind == L.IDENT and toks[p2].text == getattr(self, "cur_self", None)):
                             form, start = "assoc", p2
                         else:
                             i += 1
@@ -1244,6 +1248,9 @@ class Unit:
                         i += 1
                         continue
                     cands = [h for k_, h in helpers[t.text] if (k_ == "free") == (form == "free")]
+                    recv = None
+                    if form.startswith("method:"):
+                        form, recv = "method", form.split(":", 1)[1]
                     if len(cands) != 1:
                         i += 1
                         continue
@@ -1253,7 +1260,7 @@ class Unit:
                         i += 1
                         continue            # only private helpers: a pub function is part of the API and needs its own contract
                     close = L.match_close(toks, j)
-                    new = self._inline_call(h, toks, j, close, form, t.text)
+                    new = self._inline_call(h, toks, j, close, form, t.text, recv)
                     toks = toks[:start] + new + toks[close + 1:]
                     n = len(toks)
                     self.log["rules"]["R16"] = self.log["rules"].get("R16", 0) + 1
@@ -1263,8 +1270,10 @@ class Unit:
             i += 1
         return toks
 
-    def _inline_call(self, h, toks, o, c, form, name):
+    def _inline_call(self, h, toks, o, c, form, name, recv=None):
         ht, _, _ = strip_docs_attrs(h.toks[h.start:h.end])
+        if recv is not None:
+            ht = [L.Tok(x.kind, recv if (x.kind == L.IDENT and x.text == "self") else x.text, x.line) for x in ht]
         hp = find_fn_parts(ht)
         if hp["where"] is not None:
             raise Unsupported("helper %s has a where clause (not inlined)" % name)
@@ -1290,7 +1299,7 @@ class Unit:
             ptxt = text_of(ht[a:b]).strip()
             if not ptxt:
                 continue
-            if re.fullmatch(r"&?\s*(mut\s+)?self", ptxt):
+            if re.fullmatch(r"&?\s*(mut\s+)?self", ptxt) or (recv is not None and re.fullmatch(r"&?\s*(mut\s+)?%s" % re.escape(recv), ptxt)):
                 has_self = True
                 if "mut" in ptxt:
                     raise Unsupported("helper %s takes &mut self (not inlined)" % name)
@@ -1311,8 +1320,8 @@ class Unit:
         return out
 
     def r6b_local_consts(self, toks, rel):
-        """R6b: a module-level `const NAME: f64 = <float literal>;` of the same file that the function mentions but the unit does
-        not declare is bound as a local at the start of the body: `let NAME: f64 = <literal>;` (same value, same name)."""
+        """R6b: a module-level `const NAME: <numeric type> = <literal>;` of the same file that the function mentions but the unit
+        does not declare is bound as a local at the start of the body: `let NAME: T = <literal>;` (same value, same name)."""
         known = set(getattr(self, "consts", ()))
         _, items = self.load(rel)
         consts = {}
@@ -1323,10 +1332,13 @@ class Unit:
                     eq = next(i for i, t in enumerate(ct) if t.text == "=")
                 except StopIteration:
                     continue
-                ty = [t.text for t in ct if t.kind == L.IDENT]
                 val = ct[eq + 1:-1]
-                if len(val) == 1 and is_float_literal(val[0]) and "f64" in ty:
-                    consts[it.name] = val[0].text
+                colon = next((i for i, t in enumerate(ct) if t.text == ":"), None)
+                ty = text_of(ct[colon + 1:eq]).strip() if colon is not None else ""
+                # a single numeric literal (optionally negated) of a primitive numeric type
+                lit = [t for t in val if not (t.kind == L.PUNCT and t.text == "-")]
+                if len(lit) == 1 and lit[0].kind == L.NUM and len(val) <= 2 and re.fullmatch(r"f64|f32|[iu](8|16|32|64|128|size)", ty):
+                    consts[it.name] = (ty, text_of(val).strip())
         if not consts:
             return toks
         parts = find_fn_parts(toks)
@@ -1338,7 +1350,7 @@ class Unit:
             return toks
         ins = []
         for nm in used:
-            ins += L.lex("\n        let %s: f64 = %s;" % (nm, consts[nm]))
+            ins += L.lex("\n        let %s: %s = %s;" % (nm, consts[nm][0], consts[nm][1]))
             self.log["rules"]["R6b"] = self.log["rules"].get("R6b", 0) + 1
         b = parts["body_open"]
         return toks[:b + 1] + ins + toks[b + 1:]
